@@ -418,7 +418,7 @@ func childCmd(ctx context.Context, monBin, runDir string, conf propConf, tag str
 	os.MkdirAll(tmp, 0o755)
 	env := os.Environ()
 	env = append(env,
-		"GORACE=halt_on_error=0 history_size=3 log_path="+filepath.Join(runDir, "race-"+tag),
+		"GORACE=halt_on_error=0 exitcode=0 history_size=3 log_path="+filepath.Join(runDir, "race-"+tag),
 		"GOTRACEBACK=all",
 		"TMPDIR="+tmp,
 		"VERIF_DIR="+verifDir,
